@@ -259,6 +259,21 @@ CLAIMS["C10"] = dict(
     design_ref="DESIGN.md section 4, C10",
     technique="static analysis: custom_jvp/custom_root protocol checking, derivative-slot agreement, polynomial identity checking")
 
+CLAIMS["C03"] = dict(
+    category="other",
+    text=("Decides structural necessary conditions: compute_shapes handles every element-type constant and each maker stamps its "
+          "own type; each mode2D selects a volume function and axisymmetry flag that agree; axisymmetric volumes are "
+          "2*pi*(shapes @ X_nodes[:,0])*(Cartesian volumes of the same element) with the same radial column as the axisymmetric "
+          "gradient; gradients and volumes use the vertices of the same parent element, det J of the gradient map equals the volume "
+          "Jacobian on generic points, the order-elevation node map follows the same vertex convention, values and volumes are "
+          "restricted by the same block; the four edge-normal siblings agree; solve(J^T, dN^T)^T types to [node, x]; by constant "
+          "folding of the literal tables every triangle-rule branch has positive weights, interior points and all monomial moments "
+          "up to the largest degree it is selected for equal a!b!/(a+b+2)! (2e-14), and the 1D rule has 2n-1 >= degree for degree "
+          "0..25; edge integration uses jacobian*weights, the 1D parent element's shapes and Mesh.compute_edge_vectors. Partition of "
+          "unity / reproduction by the Vandermonde-inverted basis and the divergence theorem on physical meshes are NOT decided."),
+    design_ref="DESIGN.md section 4, C03",
+    technique="static analysis: dispatch-table and sibling rules, axis typing, symbolic identities on generic points, constant folding of quadrature tables against exact moments")
+
 NA = {}
 
 
